@@ -89,6 +89,7 @@ type ep struct {
 	got   []byte // Lean: plaintext delivered so far
 	state string // last handshake outcome: need | done | fail:<class> | panic
 	fatal string // set when the case cannot continue
+	due   []byte // plaintext whose ciphertext has been handed to this side's socket in full
 }
 
 func classify(err error) string {
@@ -322,6 +323,28 @@ func (c *scase) deliverDataReal(e *ep, wire []byte, sizes []int) {
 	}
 }
 
+// checkDue is the liveness half of stream integrity: obfs2 is a plain stream cipher after the
+// handshake, so every byte the peer wrote and the network delivered must be readable *now*,
+// without any further traffic. Blocked in Read while such bytes are outstanding = stall.
+func (c *scase) checkDue(to, from *ep, coalesced bool) {
+	if !to.real || to.rd == nil {
+		return
+	}
+	r.Validated(1)
+	if to.rd.Err != nil || to.rd.Panic != nil || len(to.rd.Got) >= len(to.due) || string(to.due[:len(to.rd.Got)]) != string(to.rd.Got) {
+		return // errors and corrupted bytes are judged at the end of the case
+	}
+	sig := "stall-delivered-bytes-not-readable"
+	how := "its segmentation"
+	if coalesced {
+		sig = "stall-data-coalesced-with-handshake"
+		how = "one flight with its handshake (seed ‖ E(magic ‖ padlen ‖ padding) ‖ data)"
+	}
+	c.violate(sig, "impl-oracle",
+		fmt.Sprintf("%s %s wrote %d bytes which reached real %s's socket in %s; real %s is blocked in Read with only %d bytes delivered (%d bytes still queued on the socket) and the peer sends nothing more",
+			kindOf(from), from.role, len(to.due), to.role, how, to.role, len(to.rd.Got), to.sc.Pending()))
+}
+
 func (e *ep) close() {
 	if e.real && e.sc != nil && !e.sc.Closed() {
 		e.sc.Close()
@@ -422,10 +445,14 @@ func runCase(c *scase) {
 		}
 		return
 	}
-	// data left over from the coalesced delivery
+	// data left over from the coalesced delivery: nothing more is on its way, all of it must come out
 	c.drain(second)
 	if second.real {
+		for _, w := range sentFirst {
+			second.due = append(second.due, w...)
+		}
 		c.deliverDataReal(second, nil, nil)
+		c.checkDue(second, first, true)
 	}
 	// remaining writes, each direction delivered in its own segmentation
 	send := func(from, to *ep, ws [][]byte, sizes []int) {
@@ -435,10 +462,15 @@ func runCase(c *scase) {
 			if from.fatal != "" {
 				return
 			}
+			to.due = append(to.due, w...)
+		}
+		if len(ws) == 0 {
+			return
 		}
 		c.deliverData(to, wire, sizes)
 		if to.real {
 			c.deliverDataReal(to, wire, sizes)
+			c.checkDue(to, from, false)
 		}
 	}
 	dataToSecond, dataToFirst := c.DataToR, c.DataToI
@@ -690,6 +722,52 @@ func bounds(ws []string) []int {
 	return b
 }
 
+// genFlight: the peer (`firstRole`, real or reference) finishes its handshake first and writes at
+// once: its whole flight seed ‖ E(header ‖ padding) ‖ data reaches the other (real) side in ONE
+// segment (cut < 0) or in two segments cut at `cut`, and then it sends nothing more until answered.
+func genFlight(g *vlib.Rng, firstRole string, firstReal bool, pad, dlen, cut int) *scase {
+	c := &scase{Kind: "session", TapeSeed: g.U64(), Chunker: "flight-one-segment", FlipBit: -1, CutAt: -1, First: firstRole,
+		Coalesce: true, ReadMax: vlib.Pick(g, []int{7, 1500, 32768})}
+	c.I = genSide(g, firstRole != "i" || firstReal, g.Intn(60))
+	c.R = genSide(g, firstRole != "r" || firstReal, g.Intn(60))
+	x := &c.I
+	if firstRole == "r" {
+		x = &c.R
+	}
+	x.Pad, x.Reject = pad, 0
+	if !x.Real {
+		x.PadBytes = randHex(g, pad)
+	}
+	wf := []string{randHex(g, dlen)}
+	ws := genWrites(g, true, false)
+	var to []int
+	if cut > 0 {
+		to = []int{cut}
+		c.Chunker = "flight-two-segments"
+	}
+	if firstRole == "i" {
+		c.WritesI, c.WritesR, c.ToR = wf, ws, to
+	} else {
+		c.WritesR, c.WritesI, c.ToI = wf, ws, to
+	}
+	return c
+}
+
+func flightCuts(pad, dlen int) []int {
+	total := 24 + pad + dlen
+	seen := map[int]bool{}
+	var cuts []int
+	for _, b := range []int{16, 20, 24, 24 + pad, total} {
+		for d := -1; d <= 1; d++ {
+			if x := b + d; x > 0 && x < total && !seen[x] {
+				seen[x] = true
+				cuts = append(cuts, x)
+			}
+		}
+	}
+	return cuts
+}
+
 func genMalformed(g *vlib.Rng, kind string, realRole string, pad int, hdrPad int64, padBytes int, flip, cut int, chunker string) *scase {
 	c := &scase{Kind: kind, TapeSeed: g.U64(), Chunker: chunker, FlipBit: flip, CutAt: cut, ReadMax: 1500, First: "i"}
 	c.I = genSide(g, realRole == "i", g.Intn(40))
@@ -797,6 +875,32 @@ func main() {
 				}
 				ch := vlib.Pick(g, []string{"whole", "two", "random", "bound-1"})
 				runCase(genMalformed(g.Fork(), "cut", role, pad, -1, 0, -1, cut, ch))
+			}
+		}
+	}
+	// the peer's whole flight (handshake ‖ first data) in one segment, and in two segments cut at
+	// every phase boundary ±1, after which the peer waits for an answer
+	type fl struct{ pad, d int }
+	flights := []fl{{0, 1}, {1, 100}, {17, 1400}, {300, 64}, {511, 2}, {512, 700}, {513, 5000}, {4096, 33}, {8192, 3000}}
+	for round := 0; round < r.Scale(1, 5); round++ {
+		for fi, f := range flights {
+			for _, role := range []string{"i", "r"} {
+				for _, firstReal := range []bool{false, true} {
+					if round > 0 {
+						f = fl{g.Intn(maxPadding + 1), 1 + g.Intn(4000)}
+						if g.Intn(2) == 0 {
+							f = fl{g.Intn(1100), 1 + g.Intn(600)}
+						}
+					}
+					runCase(genFlight(g.Fork(), role, firstReal, f.pad, f.d, -1))
+					cuts := flightCuts(f.pad, f.d)
+					if !r.Thorough() && fi%3 != round%3 {
+						cuts = []int{vlib.Pick(g, cuts), vlib.Pick(g, cuts)}
+					}
+					for _, cut := range cuts {
+						runCase(genFlight(g.Fork(), role, firstReal, f.pad, f.d, cut))
+					}
+				}
 			}
 		}
 	}
